@@ -117,6 +117,7 @@ def _run(ctx, case, net):
             o.route_timeout = case["route_timeout"]
             if a in case.get("mc_off", ()):
                 o.allow_multicast = False
+                o.node_address = a  # the documented way to apply it (pipe 0 moves to the node's own address)
         net.add("net", a, profile=case["profiles"][str(a)], setup=setup)
     active = {"plan": None, "mid": None, "origin": None, "foreign": None}
     last_hdr = {}
